@@ -130,9 +130,10 @@ _KO = re.compile(r'\bKO\b')
 # closeness codes of a compared bin (sign = direction of the shift):
 #  0 same value; 1 relative shift 1e-9; 2 shift of 0.5 combined sigma; 3 of 20 sigma; 4 of 1000 sigma;
 #  5 of 3 sigma (marginal: fails most Student tests but survives a Bonferroni correction over >= 2
-#  bins, so that a nested Student result can be false under a true (Holm-)Bonferroni result)
+#  bins, so that a nested Student result can be false under a true (Holm-)Bonferroni result);
+#  6 the compared value is NaN (undefined bin: never equal, never compatible)
 PASS_CODES = {'equal': [0], 'approx': [0, 1, -1], 'student': [0, 1, 2, -2]}
-FAIL_CODES = {'equal': [1, 2, -3, 4], 'approx': [2, -2, 3, -4], 'student': [3, -3, 4, 5, -5, 5]}
+FAIL_CODES = {'equal': [1, 2, -3, 4, 6], 'approx': [2, -2, 3, -4, 6], 'student': [3, -3, 4, 5, -5, 5, 6]}
 
 
 # --------------------------------------------------------------------------
@@ -339,6 +340,8 @@ def _shifted(val, sigma, code):
     mag = abs(code)
     if mag == 0:
         return val
+    if mag == 6:
+        return math.nan
     sign = 1.0 if code > 0 else -1.0
     if mag == 1:
         return val * (1.0 + sign * 1e-9)
